@@ -88,10 +88,10 @@ Lemma strict_read_sizes n : strict (read_sizes n).
 Proof. induction n as [|n IH]; cbn [read_sizes]; strict_tac. Qed.
 #[export] Hint Resolve strict_read_sizes : strict_db.
 
-Lemma strict_read_streams : forall sizes streams, strict (read_streams sizes streams).
+Lemma strict_read_streams : forall proto sizes streams, strict (read_streams proto sizes streams).
 Proof.
-  induction sizes as [|sz sr IH]; intros [|st tr]; cbn [read_streams]; try apply strict_rret.
-  pose proof (IH tr). strict_tac.
+  induction proto as [|t pr IH]; intros [|sz sr] [|st tr]; cbn [read_streams]; try apply strict_rret.
+  pose proof (IH sr tr). strict_tac.
 Qed.
 #[export] Hint Resolve strict_read_streams : strict_db.
 
